@@ -15,6 +15,8 @@ clock at 2^64−1 as C05, see `C08_once_counterexample`):
 import SerfProofs.Lemmas.EventBuf
 import SerfModel.Model.QueryHandle
 import SerfModel.Gen.BufLocks
+import SerfModel.Gen.BufHandler
+import SerfProofs.Lemmas.BufHandlerIR
 namespace SerfProofs.C08
 open SerfModel SerfModel.Atomic SerfModel.EventBuf SerfModel.QueryHandle SerfProofs.EventBuf
 
@@ -194,5 +196,29 @@ theorem C08_internal_hidden (evs : List AppEv) :
 /-- Source-tied obligation: `handleQuery` runs its whole check-and-record section under the exclusive
 `queryLock`, which makes the sequential model's step one atomic action under concurrent deliveries. -/
 theorem C08_handler_holds_lock : SerfModel.Gen.BufLocks.handleQuery.wholeBodyExclusive = true := by decide
+
+/-- **Source tie (regenerated on every run): the body of `handleQuery`.** The
+translation of the function body in serf/serf.go: the same front half as
+`handleUserEvent` with `slices.Contains(seen.QueryIDs, query.ID)` as duplicate
+test, then `rebroadcast := !query.NoBroadcast()`, the filter test returning
+`rebroadcast`, the ack under `query.Ack()`, the delivery, `return rebroadcast` —
+in this order. -/
+theorem C08_gen_handler_body :
+    SerfModel.Gen.BufHandler.handleQuery = SerfProofs.BufHandlerIR.queryBody := by decide
+
+/-- **The translated body IS the model**: interpreting the regenerated body of
+`handleQuery` (with the filter verdict and the two flags of the message as
+context) yields exactly `QueryHandle.handleQuery` — buffer, return value
+(re-broadcast), delivery and ack.  Moving the ack in front of the filter test,
+returning `false` for unselected queries, dropping the `!` of the no-broadcast
+flag or editing a guard changes the generated body and breaks this obligation. -/
+theorem C08_handler_body_is_model (b : Buf Nat) (q : QueryMsg) :
+    let ctx : SerfModel.BufHandlerIR.Ctx :=
+      { selected := shouldProcess re cfg q.filters, ackFlag := q.ack, noBroadcast := q.noBroadcast }
+    let r := SerfModel.BufHandlerIR.run SerfModel.Gen.BufHandler.handleQuery ctx b q.lt q.id
+    let m := handleQuery re cfg b q
+    r.1.buf = m.1 ∧ r.2 = m.2.rebroadcast ∧ r.1.delivered = m.2.delivered ∧ r.1.acked = m.2.acked := by
+  rw [C08_gen_handler_body]
+  exact SerfProofs.BufHandlerIR.queryBody_is_handleQuery re cfg b q
 
 end SerfProofs.C08
